@@ -30,7 +30,7 @@ RULE = ("each run draws a spin-doubled random Hermitian system (exact twofold de
         "m evaluations under random_gauge with different RNG seeds (each random unitary applied to a degenerate block = one "
         "injected fault). distinct = hash of (system, k, G, grid, calculators, gauge seeds); non-trivial = at least one "
         "degenerate block was actually rotated")
-PROBES = ["gauge_blocks_rotated", "gauge_runs", "gauge_fault_not_fired", "evaluate_k_compared", "run_compared",
+PROBES = ["gauge_blocks_rotated", "gauge_runs", "evaluate_k_compared", "run_compared",
           "vacuous_outputs", "periodicity_compared", "tabulated_compared", "kramers_system", "tetra_run"]
 REAL = ["Data_K / Data_K_R (random_gauge, UU_K, degen)", "evaluate_k", "formula.covariant / Formula_ln.trace", "static calculators",
         "Tabulators", "run_grid.run"]
